@@ -31,4 +31,6 @@ def run(rep: Report, tier: str, only=None) -> None:
 	]
 	rep.outside = ['tokenize(slice(source, span(n))) == tokens(n) and child span inside parent span for real parses (Lark)', 'lines longer than the bound']
 	rep.run_jobs(jobs)
+	if not only or 'O6' in only:
+		rep.run_closed('O6.pipeline_spans', 'harness.c16_pipeline', 'spans_closed', {}, 'two loaded modules (decorated class method / property / override, nested blocks, expressions continued on the next line, enum, try, comprehension): begin <= end, child span inside the parent span, a terminal span delimits its text, a decorated definition contains its decorator lines (closed)')
 	rep.check_recorded()
